@@ -424,3 +424,53 @@ def c18_5(run):
 
 from obligations import shared_ctor as _ctor
 obligation('C18', 'C18-1c the constructor invariant the withdrawal obligations assume: the debited account is the named bridge account, otherwise the signer (= C02-N)')(_ctor.constructors_obligation)
+
+
+# ----------------------------------------------------------------------------------------------------------------- C18-6
+@obligation('C18', 'C18-6 acknowledge_packet_execute / timeout_packet_execute: tokens are refunded exactly once, for exactly this packet, iff the transfer timed out or was acknowledged with an error; a successful acknowledgement refunds nothing; a refund failure fails the message')
+def c18_6(run):
+    import re
+    from mirsym import models as M
+    def h_refund(ctx):
+        st = ctx.st
+        pk = ctx.ex.deref_val(st, ctx.args[1])
+        st.log.append(('refund', pk.attrs.get('ident') if isinstance(pk, Obj) else None))
+        okv = z3.Bool('refund_ok')
+        return [(None, M.thunk_future(lambda ex, s2, fut: [(okv, ok(())), (z3.Not(okv), (lambda s3: err(Obj('eyre::Report', kind='error'))))]))]
+
+    def h_parse(ctx):
+        okv = z3.Bool('ack_parses')
+        return [(okv, (lambda s: ok(Obj('TokenTransferAcknowledgement', kind='opaque')))), (z3.Not(okv), (lambda s: err(Obj('serde_json::Error', kind='error'))))]
+    hooks = [(re.compile(r'^(ibc::ics20_transfer::)?refund_tokens(::<.*>)?$'), h_refund), (re.compile(r'^serde_json::from_slice::<'), h_parse),
+             (re.compile(r'TokenTransferAcknowledgement::is_successful$'), lambda ctx: [(None, z3.Bool('ack_successful'))]),
+             (re.compile(r'anyhow::Context<.*>>::context|eyre_to_anyhow|anyhow::Error::context|Error>::context'), lambda ctx: [(None, ctx.ex.deref_val(ctx.st, ctx.args[0]))]),
+             (re.compile(r'as_slice$'), lambda ctx: [(None, Obj('slice', kind='opaque'))])]
+    ex, W = A.engine(extra_hooks=hooks)
+    run.bound(messages='arbitrary MsgTimeout / MsgAcknowledgement; refund_tokens (its accounting is C18-5), JSON parsing of the acknowledgement and is_successful are oracles')
+    n = 0
+    for fname, mty in (('timeout_packet_execute', 'MsgTimeout'), ('acknowledge_packet_execute', 'MsgAcknowledgement')):
+        f = ex.find(rf'ics20_transfer::<impl at [^>]*>::{fname}$')
+        msg = Obj(mty, kind=None); pk = Obj('ibc_types::core::channel::Packet', kind='opaque'); pk.attrs['ident'] = 'this_packet'
+        a = ex.adts.lookup(mty)
+        if not a or 'packet' not in a.get('fields', []):
+            raise Inconclusive(f'{mty} {{ packet, .. }} not in the ADT table')
+        msg = B.struct(ex, mty, packet=pk)
+        for i, p in enumerate(run.explore(ex, ex.start(f, [Obj('S', kind='cell'), B.cell(msg)]), poll=True, allow_havoc=(r'^Arguments::|fmt::',))):
+            lab = f'[{fname}, path {i}]'
+            if p.kind != 'return':
+                run.prove(f'no panic {lab}', p.pc, z3.BoolVal(False), detail=p.info); continue
+            n += 1
+            kind, r = A.poll_result(p)
+            refunds = [e[1] for e in p.log if e[0] == 'refund']
+            run.sample({'fn': fname, 'path': i, 'result': kind, 'refunds': refunds})
+            run.prove(f'at most one refund, and only of this packet {lab}', p.pc, z3.BoolVal(refunds in ([], ['this_packet'])))
+            if fname.startswith('timeout'):
+                run.prove(f'a timeout always refunds; the message succeeds iff the refund did {lab}', p.pc, z3.And(z3.BoolVal(len(refunds) == 1), z3.BoolVal(kind == 'Ok') == z3.Bool('refund_ok')))
+            else:
+                need = z3.And(z3.Bool('ack_parses'), z3.Not(z3.Bool('ack_successful')))
+                run.prove(f'an acknowledgement refunds iff it parsed and reports an error; success refunds nothing and succeeds; an unreadable acknowledgement fails {lab}', p.pc,
+                          z3.And(z3.BoolVal(len(refunds) == 1) == need,
+                                 z3.BoolVal(kind == 'Ok') == z3.Or(z3.And(z3.Bool('ack_parses'), z3.Bool('ack_successful')), z3.And(need, z3.Bool('refund_ok')))))
+    if n < 5:
+        raise Inconclusive(f'vacuity: {n} paths')
+    run.require_reached(*run.cur.reach)
